@@ -294,6 +294,8 @@ typed!(Ty2, Timed<'a, Write<'a, R3>>);
 typed!(Ty3, Pair<'a>);
 typed!(Ty4, (shred::ReadExpect<'a, R2>, Option<Write<'a, R3>>));
 typed!(Ty5, (Option<Read<'a, R0>>, Read<'a, R3>));
+typed!(Ty6, (Write<'a, R2>,));
+typed!(Ty7, (Read<'a, R3>,));
 
 /// like LogSys, but it relies on the provided `System::setup` (= the setup of its system data through `self.accessor()`)
 pub struct LogSys2(LogSys);
@@ -674,7 +676,9 @@ pub fn apply(b: &mut Builder, op: &Op, uid: &mut usize, ctx: &Arc<Ctx>) {
                     2 => b.add(Ty2 { uid, rt, ctx }, &s.name, &deps),
                     3 => b.add(Ty3 { uid, rt, ctx }, &s.name, &deps),
                     4 => b.add(Ty4 { uid, rt, ctx }, &s.name, &deps),
-                    _ => b.add(Ty5 { uid, rt, ctx }, &s.name, &deps),
+                    5 => b.add(Ty5 { uid, rt, ctx }, &s.name, &deps),
+                    6 => b.add(Ty6 { uid, rt, ctx }, &s.name, &deps),
+                    _ => b.add(Ty7 { uid, rt, ctx }, &s.name, &deps),
                 }
             } else if my % 3 == 1 {
                 let mut sys = mk_sys(s, my, ctx);
